@@ -58,6 +58,18 @@ LINES = [b"1;0;1;0;2;1", b"", b"0;255;3;0;9;log", "12;6;1;0;47;ünï".encode(), 
          b"\xef\xbb\xbf", b"\xef\xbb", b"1;0;1;0;47;\xef\xbb\xbfx", "\u2028;\x85".encode(), b"\x1c1;0;1;0;2;1\x1d"]
 
 
+ERRNOS = {"ETIMEDOUT": 110, "EPIPE": 32, "EIO": 5, "ECONNABORTED": 103, "EHOSTUNREACH": 113, "ENETDOWN": 100,
+          "EINTR": 4, "ECONNREFUSED": 111, "ENODEV": 19}
+
+
+def _oserror(name):
+    """The OS error a dying link surfaces with: OSError(errno, ...) picks the matching subclass (TimeoutError,
+    BrokenPipeError, ConnectionAbortedError, InterruptedError ...); None = the default of the call site."""
+    if name is None:
+        return None
+    return OSError(ERRNOS[name], f"sim: {name}")
+
+
 def budget(tier):
     return 10000 if tier == "quick" else 1_200_000
 
@@ -102,6 +114,7 @@ def gen(seed: int, i: int, tier: str) -> dict:
            "extra_reads": rng.choice([0, 1, 2]), "slow": rng.random() < 0.25, "high": rng.choice([4, 16, 64]),
            "consume_at": rng.choice([None, 3.5, 9.5]), "write_error_before": rng.choice([None, None, None, 0, 1]),
            "reset_at": rng.choice([None, None, None, 0.75, 2.75]) if writes else None,
+           "errno": rng.choice([None, None] + sorted(ERRNOS)),
            "close_error": rng.choice([False] * 6 + ["async", "sync"]), "use_before_connect": rng.random() < 0.1,
            "limit": None, "second_session": rng.random() < 0.25}
     tapes = {}
@@ -261,7 +274,7 @@ def _run(scn, cfg, w, peer, res):
             peer.send_eof()
         elif cfg["end"] == "reset" and cfg["reset_at"] is None:
             reader_state["blocked_at_end_event"] = reader_state["reading"]
-            peer.reset()
+            peer.reset(_oserror(cfg.get("errno")))
 
     wresults = []
 
@@ -271,7 +284,7 @@ def _run(scn, cfg, w, peer, res):
             if dt > 0:
                 await asyncio.sleep(dt)
             if cfg["write_error_before"] == k:
-                peer.write_error = BrokenPipeError(32, "sim: broken pipe")
+                peer.write_error = _oserror(cfg.get("errno")) or BrokenPipeError(32, "sim: broken pipe")
             before = len(peer.received)
             w.log("writer", "write", wr["text"])
             try:
@@ -293,7 +306,7 @@ def _run(scn, cfg, w, peer, res):
         if cfg["reset_at"] is not None:
             await asyncio.sleep(cfg["reset_at"])
             reader_state["blocked_at_end_event"] = reader_state["reading"]
-            peer.reset()
+            peer.reset(_oserror(cfg.get("errno")))
 
     tasks = [loop.create_task(c) for c in (reader(), device(), writer(), consumer(), resetter())]
     loop.run_until_idle(10_000)
